@@ -1071,6 +1071,7 @@ def parse_dir_case(line):
         elif k == "search": ops.append((k, t.next(), t.next()))
         elif k in ("setusers", "setgroups"): ops.append((k, t.lst(entry)))
         elif k == "setanon": ops.append((k, t.next() == "1"))
+        elif k == "users": ops.append((k,))
     return udn, gdn, anon, users, groups, ops
 
 
@@ -1108,7 +1109,13 @@ def c19_violations(line, results):
             anon = op[1]
         elif op[0] == "setusers":
             users = op[1]
+        elif op[0] in ("add", "delete", "modify"):
+            users = None        # whatever the operation did: the next Users() probe says what the entries are
+        elif op[0] == "users":
+            users = r[1]
         elif op[0] == "bind":
+            if users is None:
+                continue
             dn, pw = op[1], op[2]
             ok = (pw == "-" and anon)
             for (udn_, attrs) in users:
@@ -1250,12 +1257,14 @@ def metachar_dn(line):
     return False
 
 
-def dir_check(pid, gen, n, tier, seed, res, spec):
+def dir_check(pid, gen, n, tier, seed, res, spec, tag="main"):
     cases = gen_cases(gen, seed, n, tier)
-    if pid == "C20":
+    if pid == "C20" and tag == "main":
         cases += gen_cases("c20k3", seed, 0, tier).replace("dir ", "dir k")
-    model, impl = differential(cases, wd(pid), "main")
-    opcount = {}
+    if tag != "main":
+        cases = cases.replace("dir ", "dir " + tag[0])
+    model, impl = differential(cases, wd(pid), tag)
+    opcount = res.extra.get("operations", {})
     for k, line in case_map(cases).items():
         res.evaluations += 1
         i = impl.get(k); m = model.get(k)
@@ -1286,19 +1295,26 @@ def dir_check(pid, gen, n, tier, seed, res, spec):
 @check("C19")
 def check_c19(tier, seed, res):
     dir_check("C19", "c19", 40 if tier == "quick" else 1500, tier, seed, res, c19_violations)
+    dir_check("C19", "c19hist", 40 if tier == "quick" else 1500, tier, seed, res, c19_violations, tag="hist")
     res.rule = ("user sets of 0..4 entries over a 5-DN x 4-password alphabet (prefix DNs, differently-cased DNs, duplicate DNs, no / empty / two-valued / "
                 "repeated / mis-cased password attributes), AllowAnonymousBind both ways and toggled, then every bind of 7 DNs x 4 passwords, issued by a real "
                 "go-ldap client (UnauthenticatedBind for empty passwords) against a real testdirectory.Directory on TCP; each result compared with the "
-                "property's iff computed from the case text and with the model; one evaluation = one history (28..36 binds)")
+                "property's iff computed from the case text and with the model; one evaluation = one history (28..36 binds); "
+                "histories that change the user set between binds (Add, Delete by the exact DN, by the RDN alone and by a re-cased DN, Modify of the "
+                "password, SetUsers), each change followed by the Users() getter and by binds as every user: the iff is evaluated over the entries "
+                "the getter returns")
 
 
 @check("C20")
 def check_c20(tier, seed, res):
     dir_check("C20", "c20", 60 if tier == "quick" else 3000, tier, seed, res, c20_violations)
+    dir_check("C20", "c20shared", 25 if tier == "quick" else 1000, tier, seed, res, c20_violations, tag="shared")
     res.rule = ("histories of 5..24 (thorough 5..40) operations (Add with sorted/duplicate attribute types, Modify add/delete/replace/increment with 0..3 values, "
                 "Delete of users and groups, Search by entry DN / users base / groups base / member filter / case-folded base, SetUsers, binds) over a pool of 6 "
                 "users and 3 groups whose DNs are not substrings of one another, issued one at a time by a real go-ldap client against a real directory; after "
-                "every step the result is compared with a reference store computed from the case text (check.py) and with the model")
+                "every step the result is compared with a reference store computed from the case text (check.py) and with the model; entries of one pool "
+                "that carry equal values for an attribute share the []string (as NewUsers does with WithMembersOf), and pools where every user has the "
+                "same memberOf / description values are modified one user at a time with a search of every user after each step")
 
 
 # --------------------------------------------------------------------------
